@@ -4,8 +4,13 @@ Every sub-check drives the REAL classes (formulaic.utils.structured.Structured, 
 LayeredMapping, formulaic.formula.SimpleFormula, formulaic.parser.types.OrderedSet) and compares every observation
 with the plain-python reference models in models/containers_ref.py.
 """
+import collections
 import copy
 import pickle
+import types
+from collections.abc import Mapping
+
+import pandas
 
 from formulaic.errors import FormulaInvalidError
 from formulaic.formula import OrderingMethod, SimpleFormula
@@ -25,7 +30,10 @@ RULE = (
     "nodes for _merge / == / _update, with a custom merger and with the default merger on list leaves.  "
     "LayeredMapping: every stack of <= 3 layers (plain dict / unnamed / named 'x' / named 'y' nested LayeredMapping; "
     "every subset of {k1,k2,k3} per layer, or for tall stacks the covering family in which each key takes every "
-    "presence pattern) x every history of mutating events up to the bound (set, del, named_layers, with_layers in its "
+    "presence pattern; sub-checks layered-kinds*: every layer additionally ranges over the kind of mapping object "
+    "supplied - dict, defaultdict(list), defaultdict(int), Counter, dict subclass with __missing__, MappingProxyType, "
+    "ChainMap, a user-defined Mapping, a pandas DataFrame, nested LayeredMapping over dict / defaultdict) x every "
+    "history of mutating events up to the bound (set, del, named_layers, with_layers in its "
     "prepend/inplace/name/layer-kind variants); after EVERY event the lookup of every key (value and source-layer "
     "name), the length and the supplied dicts are compared with the model, and at the end of every history (every "
     "prefix of a history is itself an enumerated history) every read operation (in, [], get, get_with_layer_name, "
@@ -37,6 +45,9 @@ RULE = (
     "one mutation / one item (counted once per execution)."
 )
 ASSUMPTIONS = [
+    "a supplied layer is anything that supports `key in layer`, `layer[key]` and iteration; the reference model reads "
+    "layers only through `key in layer` semantics, so mapping types with __missing__ (defaultdict, Counter, dict "
+    "subclasses) must neither answer for absent keys nor be mutated by reads",
     "small-scope hypothesis: recursion over keyed/tuple structure, layer search order and re-sorting have no mechanism "
     "that first fails beyond the explored depth / leaf / layer / history bounds",
     "read operations of LayeredMapping and SimpleFormula are side-effect free except the cached `named_layers` "
@@ -561,15 +572,76 @@ KINDS = ["plain", "lm", "lm:x", "lm:y"]
 DEFAULT = "<default>"
 
 
+class MissingDict(dict):
+    """a dict subclass that answers every absent key (like defaultdict, without inserting)"""
+
+    def __missing__(self, key):
+        return "<missing %s>" % key
+
+
+class TinyMapping(Mapping):
+    """a minimal user-defined read-only Mapping (membership through the Mapping mixin, i.e. through __getitem__)"""
+
+    def __init__(self, d):
+        self._d = dict(d)
+
+    def __getitem__(self, key):
+        return self._d[key]
+
+    def __iter__(self):
+        return iter(self._d)
+
+    def __len__(self):
+        return len(self._d)
+
+
+LM_PRELUDE = ("import collections, types, pandas; from collections import defaultdict, Counter, ChainMap; "
+              "from types import MappingProxyType; from collections.abc import Mapping; "
+              "from formulaic.utils.layered_mapping import LayeredMapping; "
+              "MissingDict = type('MissingDict', (dict,), {'__missing__': lambda self, k: '<missing %s>' % k}); "
+              "TinyMapping = type('TinyMapping', (Mapping,), {'__init__': lambda self, d: setattr(self, '_d', dict(d)), "
+              "'__getitem__': lambda self, k: self._d[k], '__iter__': lambda self: iter(self._d), "
+              "'__len__': lambda self: len(self._d)})")
+
+# mapping types a caller may hand over as a layer (the materializers really pass data frames)
+MAPPING_KINDS = ["plain", "dd:list", "dd:int", "counter", "missing", "proxy", "chain", "custom", "frame"]
+ALL_KINDS = MAPPING_KINDS + ["lm", "lm:x", "lm:y", "lm/dd"]
+
+
+def _items_canon(o):
+    return {k: (list(v) if type(v) is list else v) for k, v in o.items()}
+
+
+def _norm(v):
+    if type(v) is pandas.Series:
+        return ("series", tuple(v.tolist()))
+    return v
+
+
+CANON = {
+    "plain": lambda o: ("dict", _items_canon(o)),
+    "dd:list": lambda o: ("defaultdict", _items_canon(o)),
+    "dd:int": lambda o: ("defaultdict", _items_canon(o)),
+    "counter": lambda o: ("Counter", _items_canon(o)),
+    "missing": lambda o: ("MissingDict", _items_canon(o)),
+    "proxy": lambda o: ("proxy", dict(o)),
+    "chain": lambda o: ("chain", [dict(m) for m in o.maps]),
+    "custom": lambda o: ("custom", dict(o._d)),
+    "frame": lambda o: ("frame", list(o.columns), o.values.tolist()),
+    "lm": lambda o: ("lm", o.name, {k: _norm(v) if type(v) is not list else list(v) for k, v in o.items()}, len(o)),
+}
+
+
 class LMWorld:
     """real mappings and their models, built side by side"""
 
     def __init__(self):
         self.script = []          # python lines reproducing the history without the harness
-        self.supplied = []        # (description, real mapping handed to the implementation, snapshot of its content)
+        self.supplied = []        # (description, real object handed to the implementation, canon function, snapshot, cheap)
         self.pairs = []           # (model MLM, real LayeredMapping)
         self.handles = []         # [(real, model, variable name)] every mapping the history produced, newest last
         self.nvars = 0
+        self.frames = False
 
     def real_of(self, model):
         for m, r in self.pairs:
@@ -577,26 +649,74 @@ class LMWorld:
                 return r
         raise KeyError(model)
 
-    def layer(self, kind, keys, tag):
-        d = {k: "%s.%s" % (tag, k) for k in keys}
+    def supply(self, desc, obj, kind, cheap=True):
+        fn = CANON[kind]
+        self.supplied.append((desc, obj, fn, fn(obj), cheap))
+
+    def mapping(self, kind, keys, tag):
+        """(real mapping object of the given kind, model dict, variable name)"""
         var = "d%d" % self.nvars
         self.nvars += 1
-        self.script.append(("%s = %r", (var, d)))
+        if kind in ("dd:int", "counter"):
+            d = {k: 100 * self.nvars + KEYS.index(k) + 1 for k in keys}
+        elif kind == "dd:list":
+            d = {k: ["%s.%s" % (tag, k)] for k in keys}
+        elif kind == "frame":
+            d = {k: [100.0 * self.nvars + KEYS.index(k), 0.5] for k in keys}
+        else:
+            d = {k: "%s.%s" % (tag, k) for k in keys}
+        model = _items_canon(d)
         if kind == "plain":
-            real = dict(d)
-            self.supplied.append((var, real, dict(d)))
-            return real, dict(d), var
-        name = kind[3:] or None
-        inner = dict(d)
+            real, src = dict(d), "%r" % (d,)
+        elif kind == "dd:list":
+            real, src = collections.defaultdict(list, d), "defaultdict(list, %r)" % (d,)
+        elif kind == "dd:int":
+            real, src = collections.defaultdict(int, d), "defaultdict(int, %r)" % (d,)
+        elif kind == "counter":
+            real, src = collections.Counter(d), "Counter(%r)" % (d,)
+        elif kind == "missing":
+            real, src = MissingDict(d), "MissingDict(%r)" % (d,)
+        elif kind == "proxy":
+            under = dict(d)
+            real, src = types.MappingProxyType(under), "MappingProxyType(%r)" % (d,)
+            self.supply(var + " (dict behind the proxy)", under, "plain")
+        elif kind == "chain":
+            first = {k: d[k] for k in keys[:1]}
+            rest = {k: d[k] for k in keys[1:]}
+            real, src = collections.ChainMap(first, rest), "ChainMap(%r, %r)" % (first, rest)
+        elif kind == "custom":
+            real, src = TinyMapping(d), "TinyMapping(%r)" % (d,)
+        elif kind == "frame":
+            real, src = pandas.DataFrame(d), "pandas.DataFrame(%r)" % (d,)
+            model = {k: ("series", tuple(v)) for k, v in d.items()}
+            self.frames = True
+        else:
+            raise ValueError(kind)
+        self.script.append(("%s = %s", (var, src)))
+        self.supply(var, real, kind)
+        return real, model, var
+
+    def layer(self, kind, keys, tag):
+        if not kind.startswith("lm"):
+            return self.mapping(kind, keys, tag)
+        inner_kind = "dd:list" if kind == "lm/dd" else "plain"
+        name = None if kind == "lm/dd" else (kind[3:] or None)
+        inner, dmodel, var = self.mapping(inner_kind, keys, tag)
         real = LayeredMapping(inner, name=name)
-        model = R.MLM([dict(d)], name=name)
-        self.supplied.append((var, inner, dict(d)))
-        self.supplied.append(("LayeredMapping(%s)" % var, real, dict(d)))
+        model = R.MLM([dmodel], name=name)
+        self.supply("LayeredMapping(%s)" % var, real, "lm", cheap=False)
         self.pairs.append((model, real))
         lvar = "n%d" % self.nvars
         self.nvars += 1
         self.script.append(("%s = LayeredMapping(%s, name=%r)", (lvar, var, name)))
         return real, model, lvar
+
+    def check_supplied(self, col, everything):
+        for desc, obj, fn, snap, cheap in self.supplied:
+            if cheap or everything:
+                now = fn(obj)
+                if now != snap:
+                    lm_violation(col, self, "layer-mutated", "supplied layer %s" % desc, now, snap)
 
 
 def lm_script(w):
@@ -608,7 +728,7 @@ def lm_violation(col, w, sig, what, got, want):
     script = "; ".join(lines)
     col.violation("layered/%s :: %s :: %s" % (sig, what, script),
                   {"history": lines, "observation": what, "got": repr(got), "want": repr(want),
-                   "repro": "from formulaic.utils.layered_mapping import LayeredMapping; %s; print(%s)" % (script, what)},
+                   "repro": "%s; %s; print(%s)" % (LM_PRELUDE, script, what)},
                   sig=sig)
 
 
@@ -621,14 +741,15 @@ def lm_light(col, w, h=-1):
     for k in PROBE:
         want = model.find(k) if k in keys else (DEFAULT, None)
         got = real.get_with_layer_name(k, DEFAULT)
+        if w.frames:
+            got = (_norm(got[0]), got[1])
         if got != want:
             lm_violation(col, w, "layer-name" if got[0] == want[0] else "getitem",
                          "%s.get_with_layer_name(%r, default)" % (var, k), got, want)
     if len(real) != len(keys):
         lm_violation(col, w, "len", "len(%s)" % var, len(real), len(keys))
-    for desc, obj, snap in (w.supplied if h == -1 else ()):
-        if type(obj) is dict and obj != snap:
-            lm_violation(col, w, "layer-mutated", "supplied layer %s" % desc, obj, snap)
+    if h == -1:
+        w.check_supplied(col, False)
 
 
 def lm_reads(col, w):
@@ -636,6 +757,7 @@ def lm_reads(col, w):
     from, which must be unaffected), compared with the model; supplied layers untouched"""
     for h in range(len(w.handles) - 1):
         lm_light(col, w, h)
+    n = _norm if w.frames else (lambda v: v)
     for real, model, var in w.handles[-1:]:
         keys = model.keys()
         for k in PROBE:
@@ -643,16 +765,17 @@ def lm_reads(col, w):
             if (k in real) != (f is not None):
                 lm_violation(col, w, "contains", "%r in %s" % (k, var), k in real, f is not None)
             try:
-                got = ("ok", real[k])
+                got = ("ok", n(real[k]))
             except KeyError:
                 got = ("KeyError", None)
             want = ("ok", f[0]) if f else ("KeyError", None)
             if got != want:
                 lm_violation(col, w, "getitem", "%s[%r]" % (var, k), got, want)
-            got = real.get(k, DEFAULT)
+            got = n(real.get(k, DEFAULT))
             if got != (f[0] if f else DEFAULT):
                 lm_violation(col, w, "get", "%s.get(%r, default)" % (var, k), got, f[0] if f else DEFAULT)
             got = real.get_with_layer_name(k, DEFAULT)
+            got = (n(got[0]), got[1])
             want = f if f else (DEFAULT, None)
             if got != want:
                 lm_violation(col, w, "layer-name", "%s.get_with_layer_name(%r, default)" % (var, k), got, want)
@@ -664,13 +787,14 @@ def lm_reads(col, w):
             lm_violation(col, w, "iter", "list(%s)" % var, it, sorted(keys))
         if len(real) != len(it) or len(real) != len(keys):
             lm_violation(col, w, "len", "len(%s) vs len(list(%s))" % (var, var), len(real), len(keys))
-        got = dict(real.items())
+        got = {k: n(v) for k, v in real.items()}
         if got != model.merged():
             lm_violation(col, w, "items", "dict(%s.items())" % var, got, model.merged())
-    for desc, obj, snap in w.supplied:
-        now = dict(obj) if not isinstance(obj, dict) else obj
-        if now != snap or len(obj) != len(snap):
-            lm_violation(col, w, "layer-mutated", "supplied layer %s" % desc, now, snap)
+        # a second pass: pure reads must not have changed what the mapping answers (e.g. by polluting a layer)
+        if [k for k in PROBE if k in real] != [k for k in PROBE if k in keys] or len(real) != len(keys):
+            lm_violation(col, w, "contains", "membership / len after reads of %s" % var,
+                         ([k for k in PROBE if k in real], len(real)), (sorted(keys), len(keys)))
+    w.check_supplied(col, True)   # every supplied object (also nested mappings) equals its snapshot after the reads
 
 
 def lm_named(col, w):
@@ -706,6 +830,12 @@ def lm_named(col, w):
             lm_violation(col, w, "named-layers", "%s.no_such_layer raises AttributeError" % var, "no error", "AttributeError")
         except AttributeError:
             pass
+
+
+def lm_events_kinds():
+    """reduced alphabet + with_layers handing over a defaultdict"""
+    return lm_events(False) + [("wl", "dd:list", prepend, inplace, "keep") for inplace in (False, True)
+                               for prepend in (True, False)]
 
 
 def lm_events(full):
@@ -1137,6 +1267,14 @@ def subchecks(tier, seed):
                                                   "2**n covering matrices (every per-key presence pattern for every key)" % full_upto,
                                 "mutating_events": len(events),
                                 "history": "%s %d events" % ("exactly" if extra.get("min_ops") == max_ops else "<=", max_ops)}))
+    kev = lm_events_kinds()
+    if quick:
+        lm_sub("layered-kinds-reads", kev, 0, 2, ALL_KINDS, [None], 4, max_layers=2)
+        lm_sub("layered-kinds", kev, 1, 1, ALL_KINDS, [None], 5, max_layers=2)
+    else:
+        lm_sub("layered-kinds", kev, 1, 2, ALL_KINDS, [None], 5, max_layers=2)
+        lm_sub("layered-kinds-2", kev, 2, 1, ALL_KINDS, [None], 6, max_layers=2, min_ops=2)
+        lm_sub("layered-kinds-3", kev, 1, 2, ALL_KINDS, [None], 6, layer_counts=[3])
     if quick:
         lm_sub("layered-stacks", full, 1, 2, KINDS, [None, "t"], 6)
         lm_sub("layered-histories", reduced, 3, 1, ["plain", "lm:x"], [None], 6)
